@@ -275,7 +275,16 @@ fn plan(q: &Par) -> Plan {
                 }
                 7 => { carved = true; start_shift = 8 * q.hp1 as usize; }
                 8 => { start_shift = (if w == 16 { 16 } else { 8 }) * q.hp1 as usize; }
-                9 => { h.len = h.len.saturating_sub(8 * q.hp1 as usize); }
+                9 => {
+                    h.len = h.len.saturating_sub(8 * q.hp1 as usize);
+                    if kind == K_Z || kind == K_S {
+                        // VecZnx / ScalarZnx::from_data validate the buffer (repair 2067fe8): a short buffer must be
+                        // rejected by a panic (which propagates as the outcome of this record)
+                        let buf: Vec<u8> = poulpy_hal::alloc_aligned::<u8>(h.len.max(64));
+                        if kind == K_Z { let v = VecZnx::from_data(&buf[..h.len], q.n, cols, size); h.len = v.data.len(); }
+                        else { let v = ScalarZnx::from_data(&buf[..h.len], q.n, cols); h.len = v.data.len(); }
+                    }
+                }
                 11 => { h.n = if q.hp1 == 0 { (q.n / 2).max(1) } else { q.n * 2 }; h.len = h.n * words * w; }
                 _ => panic!("c17: unknown history"),
             }
@@ -732,21 +741,21 @@ const OPS: [i64; 55] = [1, 2, 3, 4, 5, 6, 7, 8, 9, 10, 11, 12, 13, 14, 15, 16, 2
 /// the NTT120 ones n >= 2; see DESIGN / evidence notes)
 /// smallest ring degree of the MAIN stream per backend and family: below it the call is either rejected by a defined
 /// panic during input preparation (FFT64 transforms at n = 1) or lies in one of the known-finding zones that the
-/// hazard stream exercises in isolated processes (FFT64Avx DFT-domain kernels without tail for n < 8, FFT64 vmp for
-/// n < 8, NTT120 vmp at n = 1)
+/// hazard stream exercises in isolated processes (FFT64 vmp for n < 8, NTT120 vmp at n = 1: inadmissible by the code's own
+/// debug asserts / silent no-op)
 fn min_n(be: i128, opc: i64) -> usize {
     if std::env::var("C17_MIN_N_1").is_ok() { return 1; }
     if opc < 50 { 1 }
     else if opc >= 90 { if be <= 2 { 16 } else { 2 } }
     else if opc >= 70 { if be <= 2 { 8 } else { 2 } }
-    else if be == 1 { 2 } else if be == 2 { 8 } else { 1 }
+    else if be <= 2 { 2 } else { 1 }
 }
 
 pub fn generate(tier: &str, seed: u64) -> Vec<Rec> { gen_stream(tier, seed, 0) }
 
 /// zone 0 = main stream (admissible calls and cleanly rejected ones); zones 1..5 = the hazard stream:
-///   1 FFT64Avx DFT-domain operations at n in {2,4}      2 FFT64 vmp family at n in {2,4}      3 NTT120 vmp family at n = 1
-///   4 an operand of another ring degree (histories 10, 11)      5 ill-formed subjects (histories 4, 6, 9) actually USED
+///   1 (retired: FFT64Avx DFT-domain operations at n in {2,4}, repaired)      2 FFT64 vmp family at n in {2,4}      3 NTT120 vmp family at n = 1
+///   4 an operand of another ring degree (histories 10, 11)      5 ill-formed subjects (from_data of VecZnxBig / VecZnxDft / SvpPPol on a short buffer) actually USED
 pub fn gen_stream(tier: &str, seed: u64, zone: u8) -> Vec<Rec> {
     let mut g = Rng::new(seed ^ 0xC17 ^ ((zone as u64) << 32));
     let mut out = Vec::new();
@@ -757,7 +766,7 @@ pub fn gen_stream(tier: &str, seed: u64, zone: u8) -> Vec<Rec> {
                 let (kinds, _, _, _) = op_info(opc).unwrap();
                 let mn = min_n(be, opc);
                 let nn: Vec<usize> = match zone {
-                    1 => { if !(be == 2 && (50..70).contains(&opc)) { continue; } vec![2, 4] }
+                    1 => { continue; }   // (FFT64Avx DFT-domain kernels at n < 8: repaired by fd67345, now part of the main stream)
                     2 => { if !(be <= 2 && opc >= 70) { continue; } vec![2, 4] }
                     3 => { if !(be >= 3 && opc >= 70) { continue; } vec![1] }
                     _ => [1usize, 2, 4, 8, 16, 32, 64, 128].iter().copied().filter(|x| *x >= mn).collect(),
@@ -795,10 +804,11 @@ pub fn gen_stream(tier: &str, seed: u64, zone: u8) -> Vec<Rec> {
                 let mut hs: Vec<i64> = vec![0, 0, 7, 8];
                 if kind == K_Z || kind == K_D { hs.extend([1, 1]); }
                 if kind == K_Z { hs.extend([2, 3, 3, 4, 5, 5, 6, 9, 12]); }
+                if kind == K_B || kind == K_D || kind == K_P { hs.push(9); }
                 match zone {
                     1..=3 => hs = vec![0],
                     4 => { if kind == K_Z { hs = vec![10, 11]; } else { hs = vec![11]; } }
-                    5 => { if kind == K_Z { hs = vec![4, 6, 9]; } else { continue; } }
+                    5 => { if kind == K_B || kind == K_D || kind == K_P { hs = vec![9]; } else { continue; } }
                     _ => {}
                 }
                 if opc == 58 { hs.retain(|h| *h != 1); }   // consume: the big view reuses the active prefix only
@@ -819,7 +829,7 @@ pub fn gen_stream(tier: &str, seed: u64, zone: u8) -> Vec<Rec> {
                                (k, v) }
                     7 => (g.range(0, 7), 0),
                     8 => (g.range(1, if w_of(kind, be) == 16 { 3 } else { 7 }), 0),
-                    9 => (g.range(1, n as i64), 0),
+                    9 => (g.range(1, (n as i64).max(1)), 0),
                     10 => (g.range(0, 4), 0),
                     11 => (g.range(0, 1), 0),
                     _ => (0, 0),
